@@ -359,10 +359,15 @@ def rule_gate(ctx):
     h = ctx.need_hir(rule, fn)
     env = A.Env(); env.strip = True; env.bind_params(h)
     s = A.sexpr(h["body"], env)
-    ctx.check(s.startswith("(core::iter::traits::iterator::Iterator::collect (core::iter::traits::iterator::Iterator::flat_map (. (. $P0 statics) compus) "),
-              rule, "validate:all-computations", "CoverageChecker::validate is %s: not a flat_map over every computation" % s[:120],
-              facts.bodies()[fn]["loc"], detail={"over": "statics.compus"})
-    fn = CV + "CoverageChecker::<'a>::validate_pattern_matrix"
+    adapters = sorted(set(x["name"] for x in H.walk(h["body"]) if H.kind(x) == "MethodCall"))
+    ok = "(core::iter::traits::iterator::Iterator::flat_map (. (. $P0 statics) compus) (closure (%sCoverageChecker::<'a>::validate_computation " % CV in s \
+        and s.startswith("(core::iter::traits::iterator::Iterator::collect ") and set(adapters) <= {"iter", "flat_map", "chain", "collect", "validate_computation", "validate_value"}
+    ctx.check(ok, rule, "validate:all-computations", "CoverageChecker::validate is %s (adapters %s): not an unfiltered flat_map over every "
+              "computation" % (s[:120], adapters), facts.bodies()[fn]["loc"], detail={"over": "statics.compus", "adapters": adapters})
+    fn = next((CV + "CoverageChecker::<'a>::" + f for f in ("missing_patterns", "validate_pattern_matrix")
+               if facts.hir(CV + "CoverageChecker::<'a>::" + f) is not None and any(
+                   H.kind(x) == "MethodCall" and x["name"] == "truncate" for x in H.walk(facts.hir(CV + "CoverageChecker::<'a>::" + f)["body"]))),
+              CV + "CoverageChecker::<'a>::validate_pattern_matrix")
     h = ctx.need_hir(rule, fn)
     body = h["body"]
     stmts = list(body.get("stmts") or [])
@@ -385,6 +390,81 @@ def rule_gate(ctx):
                   "truncation is detectable" % (f, takes, bound), facts.bodies()[fn]["loc"], detail={"take": takes})
 
 
+def rule_binder_coverage(ctx):
+    """every binder position of the typed language is validated (a binder outside `match` is a one-clause match)"""
+    rule = "binder-coverage"
+    facts = ctx.facts
+    ctx.rule(rule, "every variant of the typed Computation and Value that carries a value pattern (VPatId: the binders of fn, fix, do, "
+                   "let, match) has an explicit arm in CoverageChecker::validate_computation / validate_value that hands that binder to "
+                   "the matrix validator, and CoverageChecker::validate visits both arenas: no binder of an accepted program is "
+                   "refutable, so the interpreter's `pattern match failed` sites are unreachable")
+    fam = r"CoverageChecker::<'a>::(validate_\w+|missing_patterns)$"
+    n = 0
+    for adt, fn in (("zydeco_statics::syntax::Computation", CV + "CoverageChecker::<'a>::validate_computation"),
+                    ("zydeco_statics::syntax::Value", CV + "CoverageChecker::<'a>::validate_value")):
+        short = adt.split("::")[-1]
+        a = facts.adts().get(adt)
+        if a is None:
+            ctx.anchor_lost(rule, adt + " not found")
+            continue
+        carriers = [v["name"] for v in a["variants"] if any("VPatId" in (f.get("ty") or "") for f in v["fields"])]
+        ctx.floor(rule, "%s variants carrying a value pattern" % short, len(carriers), 2)
+        h = facts.hir(fn)
+        if h is None:
+            for v in carriers:
+                n += 1
+                ctx.violation(rule, "%s::%s:unvalidated" % (short, v), "there is no %s: the binder of %s::%s is never checked for "
+                              "refutability (a constructor pattern that does not cover its data type is accepted and the interpreter "
+                              "panics `pattern match failed`)" % (fn.split("::")[-1], short, v), a.get("loc"))
+            continue
+        ctx.fn(fn)
+        loc = facts.bodies()[fn]["loc"]
+        m = A.find_match_on(h["body"], lambda x: short in H.strip_refs(x["scrut"].get("ty") or ""))
+        if m is None:
+            ctx.anchor_lost(rule, "%s: dispatch on %s not found" % (fn, short))
+            continue
+        for v in carriers:
+            n += 1
+            arm = None
+            for arm_ in m["arms"]:
+                pat = arm_["pat"]
+                alts = pat["pats"] if H.kind(pat) == "Or" else [pat]
+                if any((H.top_variant(A.strip_or(q)) or "").split("::")[-1] == v for q in alts):
+                    arm = arm_
+                    alt = next(q for q in alts if (H.top_variant(A.strip_or(q)) or "").split("::")[-1] == v)
+            if arm is None:
+                ctx.violation(rule, "%s::%s:unvalidated" % (short, v),
+                              "%s has no arm for %s::%s: its binder is never checked for refutability (a constructor pattern that does "
+                              "not cover its data type is accepted there and the interpreter panics `pattern match failed`)"
+                              % (fn.split("::")[-1], short, v), loc)
+                continue
+            binds = [b for b in H.pat_bindings(alt) if "VPatId" in (b.get("ty") or "")]
+            names = set(b["name"] for b in binds)
+            handed = False
+            for node, c in H.calls(arm["body"]):
+                if re.search(fam, c):
+                    for x in H.call_args(node):
+                        for q in H.walk(x):
+                            l = H.path_local(q)
+                            if l and l[1] in names:
+                                handed = True
+            ctx.check(bool(binds) and handed, rule, "%s::%s:validated" % (short, v),
+                      "%s arm %s binds %s but does not hand the value pattern to the matrix validator" % (fn.split("::")[-1], v, sorted(names)),
+                      [loc[0], arm["ln"]], detail={"variant": v, "binder": sorted(names)})
+    ctx.floor(rule, "binder positions", n, 7)
+    # validate visits both arenas
+    fn = CV + "CoverageChecker::<'a>::validate"
+    h = ctx.need_hir(rule, fn)
+    if h is not None:
+        txt = A.sexpr(h["body"], None)
+        callees = set(c for _, c in H.calls(h["body"]))
+        for arena, f in (("compus", "validate_computation"), ("values", "validate_value")):
+            ok = any(c.endswith("::" + f) for c in callees) and any(
+                H.kind(x) == "Field" and x.get("name") == arena for x in H.walk(h["body"]))
+            ctx.check(ok, rule, "validate:%s" % arena, "CoverageChecker::validate does not run %s over statics.%s" % (f, arena),
+                      facts.bodies()[fn]["loc"], detail={"arena": arena})
+
+
 def run(ctx):
     ctx.rule("matrix-trace", "uncovered / uncovered_finite / uncovered_default / validate_* / the five tables perform the audited sequence of "
                              "operations (rules/golden_coverage.json)")
@@ -396,6 +476,7 @@ def run(ctx):
     rule_from_typed(ctx)
     rule_hints(ctx)
     rule_gate(ctx)
+    rule_binder_coverage(ctx)
     ctx.assume("the pattern-matrix algorithm U(P, n, E) as audited is sound and complete (Maranget); agreement with brute-force enumeration "
                "is NOT decided; run-time arm selection is the Assign judgment of C02")
     return {}
